@@ -735,7 +735,7 @@ def static_part(ctx, rnd):
             raise vlib.MachineryError("plant %s in %s/%s: parser verdict unexpected: %s" % (c["plant"], c["base"], c["slot"], res[c["id"]].get("perr")))
     f = ctx.path("recs.ndjson")
     vlib.write_ndjson(f, recs)
-    bad, checked = ctx.validate("C09Trace", "C09Trace.cfg", [f], heap="16g")
+    bad, checked = ctx.validate("C09Trace", "C09Trace.cfg", [f], heap="8g" if ctx.quick else "16g")
     if checked != len(recs):
         raise vlib.MachineryError("TLC checked %d of %d records" % (checked, len(recs)))
     mach = sorted({-b for b in bad if b < 0})
@@ -808,7 +808,8 @@ def report_static(ctx, bad, byid, res, corpus=False):
         return out
     strict, still = diag(False), diag(True)
     for c in recheck:
-        for m in c["masks"]:
+        static_of = {r["m"]: r["static"] for r in res2[c["id"]]["runs"]}
+        for m in sorted(c["masks"], key=lambda m: (static_of[m], m)):
             n = c["id"] * 64 + m
             run = [r for r in res2[c["id"]]["runs"] if r["m"] == m][0]
             if n not in strict:
